@@ -247,6 +247,7 @@ def run(tier, seed):
         raise C.InfraError("canaries accepted: %s" % missed[:3])
 
     stale = 0
+    ev_by_id = {e["id"]: e for e in events}
     for cid, v in sorted(bad.items()):
         if cid in canaries:
             continue
@@ -255,17 +256,17 @@ def run(tier, seed):
             # (one class per CPU and operand shape: the mnemonics that share an addressing mode share its sizing code)
             chk.report("TwoPass.OperandForm@%s:%s@%d" % (cpu, " ".join(K.shape(t).split()[1:]), pos),
                        "labels %s are placed in pass 2 where they were not bound in pass 1 (.%s, `%s` with operand %d a label defined behind it)\n%s" % (v["drift"], cpu, t, pos, src),
-                       dict(source=src, cpu=cpu, drift=v.get("drift"), probes=[e for e in events if e["id"] == cid][0]["obs"]["probes"]))
+                       dict(source=src, cpu=cpu, drift=v.get("drift"), probes=ev_by_id[cid]["obs"]["probes"]))
             continue
         if cid in bmeta:
             cpu, t, gap, src = bmeta[cid]
             chk.report("TwoPass.BranchForm@%s:%s" % (cpu, t),
                        "labels %s are placed in pass 2 where they were not bound in pass 1 (.%s, `%s` over a gap of %d bytes)\n%s" % (v["drift"], cpu, t, gap, src),
-                       dict(source=src, cpu=cpu, drift=v.get("drift"), probes=[e for e in events if e["id"] == cid][0]["obs"]["probes"]))
+                       dict(source=src, cpu=cpu, drift=v.get("drift"), probes=ev_by_id[cid]["obs"]["probes"]))
             continue
         i, cpu, big, rule, modelled, src = meta[cid]
         payload = dict(source=src, cpu=cpu, drift=v.get("drift"), predicted=v.get("predicted"),
-                       probes=[e for e in events if e["id"] == cid][0]["obs"]["probes"])
+                       probes=ev_by_id[cid]["obs"]["probes"])
         if v["vd"] == "stale":
             stale += 1
         elif v["vd"] == "dev":
@@ -276,7 +277,7 @@ def run(tier, seed):
             def forward_ref(p):
                 defined = set()
                 for st in p:
-                    if st["k"] == "label":
+                    if st["k"] in ("label", "set"):         # (a name assigned by .set is known when the instruction is met)
                         defined.add(st["n"])
                     elif st["k"] == "insn" and "s" in st["r"] and st["r"]["s"] not in defined:
                         return True
